@@ -222,3 +222,11 @@ def open_and_download(client, index, subindex, size, data):
     from canopen.sdo.client import WritableStream
     stream = WritableStream(client, index, subindex, size, False)
     download_in_chunks(stream, data)
+
+
+def write_pieces(stream, pieces):
+    """a caller hands the payload over in several pieces, one write() each"""
+    r = []
+    for p in pieces:
+        r.append(stream.write(p))
+    return tuple(r)
